@@ -8,7 +8,7 @@ BUDGET = {"quick": 500, "thorough": 8000}
 def explore(res, scale=1, seed=None):
     seed = res.seed if seed is None else seed
     n = 0
-    for fam, k in (("c01", BUDGET[res.tier] * scale), ("c07", BUDGET[res.tier] * scale * 4), ("c15", BUDGET[res.tier] * scale)):
+    for fam, k in (("c01", BUDGET[res.tier] * scale), ("c07", BUDGET[res.tier] * scale * 3), ("c15", BUDGET[res.tier] * scale)):
         rows = colfam.run_family(res, fam, k, seed, builds=("default", "purego"))
         n += colfam.compare_builds(res, rows["default"], rows["purego"], fam)
     res.extra["cases_compared_between_builds"] = n
